@@ -48,7 +48,7 @@ const (
 )
 
 var allKeys = [][]byte{[]byte("a"), []byte("b"), {}, []byte("c"), []byte("aa"), []byte("d"), []byte("e")} // the empty key is legal
-var allVals = [][]byte{[]byte("v1"), []byte("v2"), []byte("w"), {}, core.NilValue, core.LongValue()} // incl. the untyped nil (negative-caching marker)
+var allVals = [][]byte{[]byte("v1"), []byte("v2"), []byte("V1"), []byte("w"), {0x80}, {0xff}, {}, core.NilValue, core.LongValue()} // incl. the untyped nil (negative-caching marker)
 var allIDs = [][]byte{[]byte("h1"), []byte("h2"), []byte("h3")}
 
 const hugeBytes = int64(1) << 40
